@@ -6,6 +6,7 @@ import TapkeeVerif.Model.LocallyLinear
 import TapkeeVerif.Proofs.LocallyLinear
 import TapkeeVerif.Proofs.LocallyLinearHlle
 import TapkeeVerif.Proofs.LocallyLinearHlleMat
+import TapkeeVerif.Proofs.LocallyLinearPsd
 import TapkeeVerif.Proofs.SpectralLocal
 import Mathlib.LinearAlgebra.Matrix.Notation
 import Mathlib.Tactic.NormNum
@@ -481,6 +482,113 @@ theorem skipped_eigenvector_is_constant {n : Nat} (hn : 0 < n) (M V : Matrix (Fi
   exact ⟨κ, hκ, fun i => by rw [hV i, mul_one]⟩
 
 end Spectral
+
+/-! ## End to end: the model matrices under the eigensolver contract
+
+The `embed()` glue — which weight-matrix routine a method calls, `skip = 1`, `SmallestEigenvalues`, the dense solver —
+is NOT modelled here: it is observed per run through the eigen-observer hook (`verif_eigen_observer`) by the checks. -/
+
+section EndToEnd
+open TapkeeVerif.SpectralLocal
+variable {K : Type} [Field K] [LinearOrder K] [IsStrictOrderedRing K] {N k d : Nat}
+
+/-- LLE: `xᵀ (M − shift·I) x = ‖(I − W) x‖² ≥ 0`, all neighbour lists and weights -/
+theorem lle_psd (nb : Fin N → Fin k → Fin N) (wraw : Fin N → Vec k K) (shift : K) (x : Fin N → K) :
+    0 ≤ x ⬝ᵥ ((Mat.toM (lleM nb wraw shift) - shift • (1 : Matrix (Fin N) (Fin N) K)) *ᵥ x) :=
+  lle_psd' nb wraw shift x
+
+/-- LTSA: with orthonormal local bases `G_i = [rsk | U i]` every `I − G_i G_iᵀ` is a projector, so `M − shift·I` is PSD -/
+theorem ltsa_psd (nb : Fin N → Fin k → Fin N) (rsk : K) (U : Fin N → Mat k d K) (shift : K)
+    (horth : ∀ i, (Mat.toM (ltsaG rsk (U i)))ᵀ * Mat.toM (ltsaG rsk (U i)) = 1) (x : Fin N → K) :
+    0 ≤ x ⬝ᵥ ((Mat.toM (ltsaM nb rsk U shift) - shift • (1 : Matrix (Fin N) (Fin N) K)) *ᵥ x) :=
+  ltsa_psd' nb rsk U shift horth x
+
+/-- HLLE: `M = Σ_i S_i H_i H_iᵀ S_iᵀ` is PSD with no hypothesis at all -/
+theorem hlle_psd (nb : Fin N → Fin k → Fin N) (sqrtO : K → K) (thr : K) (U : Fin N → Mat k d K) (x : Fin N → K) :
+    ∀ M', hlleM nb sqrtO thr U = .ok M' → 0 ≤ x ⬝ᵥ (Mat.toM M' *ᵥ x) := by
+  intro M' hM
+  rw [hlleM_eq_ok (hlle_index_ok d)] at hM
+  cases hM
+  exact hlleMat_psd nb sqrtO thr U x
+
+/-- Rayleigh quotient of column `j`: every eigenvalue of a full orthonormal eigensystem is at least any lower bound
+    of the quadratic form -/
+theorem psd_eigenvalues_ge {n : Nat} (M V : Matrix (Fin n) (Fin n) K) (lam : Fin n → K)
+    (h : GenEigSystem M 1 V lam) (s : K) (hpsd : ∀ x : Fin n → K, s * (x ⬝ᵥ x) ≤ x ⬝ᵥ (M *ᵥ x)) :
+    ∀ j, s ≤ lam j :=
+  psd_eigenvalues_ge' M V lam h s hpsd
+
+/-- hence `shift` is the bottom of the LLE spectrum -/
+theorem lle_eigenvalues_ge_shift (nb : Fin N → Fin k → Fin N) (wraw : Fin N → Vec k K) (shift : K)
+    (V : Matrix (Fin N) (Fin N) K) (lam : Fin N → K)
+    (hsys : GenEigSystem (Mat.toM (lleM nb wraw shift)) 1 V lam) : ∀ j, shift ≤ lam j :=
+  psd_eigenvalues_ge _ V lam hsys shift fun x => rayleigh_of_shift_psd _ shift x (lle_psd nb wraw shift x)
+
+/-- generic composition: `M 1 = s 1`, `s` simple among the solver's eigenvalues ⇒ the `d` columns after the skipped one
+    are orthonormal, sum to zero, cost `Σ lam(1+c)` and minimise `tr(Zᵀ M Z)` over orthonormal `Z ⟂ 1` -/
+theorem skip_one_end_to_end {n d : Nat} (hd : 1 + d ≤ n) (M V : Matrix (Fin n) (Fin n) K) (lam : Fin n → K)
+    (h : GenEigSystem M 1 V lam) (s : K) (hM1 : M.mulVec (fun _ => (1 : K)) = fun _ => s)
+    (hsimple : ∀ j : Fin n, j.1 ≠ 0 → lam j ≠ s) :
+    (cols V (shiftIdx 1 hd))ᵀ * cols V (shiftIdx 1 hd) = 1 ∧
+    (∀ c, ∑ i, cols V (shiftIdx 1 hd) i c = 0) ∧
+    Matrix.trace ((cols V (shiftIdx 1 hd))ᵀ * M * cols V (shiftIdx 1 hd)) = ∑ c, lam (shiftIdx 1 hd c) ∧
+    ∀ Z : Matrix (Fin n) (Fin d) K, Zᵀ * Z = 1 → (∀ c, ∑ i, Z i c = 0) →
+      Matrix.trace ((cols V (shiftIdx 1 hd))ᵀ * M * cols V (shiftIdx 1 hd)) ≤ Matrix.trace (Zᵀ * M * Z) := by
+  obtain ⟨κ, hκ, hV⟩ := skipped_eigenvector_is_constant (by omega) M V lam h s hM1 hsimple
+  exact smallest_skip_one_optimal M V lam h hd κ hκ hV
+
+/-- **KLLE end to end** (model matrix + solver contract).  For `M = linear_weight_matrix` with non-zero raw weight sums,
+    any full orthonormal ascending eigensystem of `M` whose eigenvalue `shift` is simple: the `d` columns returned after
+    skipping the first are orthonormal, each sums to zero, and they minimise `tr(Zᵀ M Z)` over all orthonormal `Z` with
+    zero column sums.  (`embed()` glue — routine, `skip = 1`, SmallestEigenvalues, Dense — observed per run, not modelled.) -/
+theorem klle_end_to_end (nb : Fin N → Fin k → Fin N) (wraw : Fin N → Vec k K) (shift : K)
+    (hw : ∀ i, sumFin k (wraw i) ≠ 0) (V : Matrix (Fin N) (Fin N) K) (lam : Fin N → K)
+    (hsys : GenEigSystem (Mat.toM (lleM nb wraw shift)) 1 V lam) (hd : 1 + d ≤ N)
+    (hsimple : ∀ j : Fin N, j.1 ≠ 0 → lam j ≠ shift) :
+    (cols V (shiftIdx 1 hd))ᵀ * cols V (shiftIdx 1 hd) = 1 ∧
+    (∀ c, ∑ i, cols V (shiftIdx 1 hd) i c = 0) ∧
+    Matrix.trace ((cols V (shiftIdx 1 hd))ᵀ * Mat.toM (lleM nb wraw shift) * cols V (shiftIdx 1 hd))
+      = ∑ c, lam (shiftIdx 1 hd c) ∧
+    ∀ Z : Matrix (Fin N) (Fin d) K, Zᵀ * Z = 1 → (∀ c, ∑ i, Z i c = 0) →
+      Matrix.trace ((cols V (shiftIdx 1 hd))ᵀ * Mat.toM (lleM nb wraw shift) * cols V (shiftIdx 1 hd))
+        ≤ Matrix.trace (Zᵀ * Mat.toM (lleM nb wraw shift) * Z) :=
+  skip_one_end_to_end hd _ V lam hsys shift (lle_const_eigvec nb wraw shift hw) hsimple
+
+/-- **KLTSA end to end**: the same for `M = tangent_weight_matrix` under `rsk²·k = 1` and zero column sums of the local
+    bases (hypotheses of `ltsa_const_null`).  (`embed()` glue observed per run, not modelled.) -/
+theorem kltsa_end_to_end (nb : Fin N → Fin k → Fin N) (rsk : K) (U : Fin N → Mat k d K) (shift : K)
+    (h1 : rsk * rsk * (k : K) = 1) (hU : ∀ i c, ∑ a, U i a c = 0)
+    (V : Matrix (Fin N) (Fin N) K) (lam : Fin N → K) {t : Nat}
+    (hsys : GenEigSystem (Mat.toM (ltsaM nb rsk U shift)) 1 V lam) (hd : 1 + t ≤ N)
+    (hsimple : ∀ j : Fin N, j.1 ≠ 0 → lam j ≠ shift) :
+    (cols V (shiftIdx 1 hd))ᵀ * cols V (shiftIdx 1 hd) = 1 ∧
+    (∀ c, ∑ i, cols V (shiftIdx 1 hd) i c = 0) ∧
+    Matrix.trace ((cols V (shiftIdx 1 hd))ᵀ * Mat.toM (ltsaM nb rsk U shift) * cols V (shiftIdx 1 hd))
+      = ∑ c, lam (shiftIdx 1 hd c) ∧
+    ∀ Z : Matrix (Fin N) (Fin t) K, Zᵀ * Z = 1 → (∀ c, ∑ i, Z i c = 0) →
+      Matrix.trace ((cols V (shiftIdx 1 hd))ᵀ * Mat.toM (ltsaM nb rsk U shift) * cols V (shiftIdx 1 hd))
+        ≤ Matrix.trace (Zᵀ * Mat.toM (ltsaM nb rsk U shift) * Z) :=
+  skip_one_end_to_end hd _ V lam hsys shift
+    (mulVec_one_of_shift_null _ shift (ltsa_const_null nb rsk U shift h1 hU)) hsimple
+
+/-- **HLLE end to end**: the same for `M' = hessian_weight_matrix` (every `d`; trivial eigenvalue `0`) under the
+    Gram–Schmidt contract `hgs` of `hlle_const_null`.  (`embed()` glue observed per run, not modelled.) -/
+theorem hlle_end_to_end (nb : Fin N → Fin k → Fin N) (sqrtO : K → K) (thr : K) (U : Fin N → Mat k d K)
+    (hgs : ∀ i, ∀ h ∈ hlleH sqrtO thr (U i), (∑ a, h.get a = 0) ∧ ∀ c, ∑ a, h.get a * U i a c = 0)
+    (M' : Mat N N K) (hM : hlleM nb sqrtO thr U = .ok M')
+    (V : Matrix (Fin N) (Fin N) K) (lam : Fin N → K) {t : Nat}
+    (hsys : GenEigSystem (Mat.toM M') 1 V lam) (hd : 1 + t ≤ N)
+    (hsimple : ∀ j : Fin N, j.1 ≠ 0 → lam j ≠ 0) :
+    (cols V (shiftIdx 1 hd))ᵀ * cols V (shiftIdx 1 hd) = 1 ∧
+    (∀ c, ∑ i, cols V (shiftIdx 1 hd) i c = 0) ∧
+    Matrix.trace ((cols V (shiftIdx 1 hd))ᵀ * Mat.toM M' * cols V (shiftIdx 1 hd)) = ∑ c, lam (shiftIdx 1 hd c) ∧
+    ∀ Z : Matrix (Fin N) (Fin t) K, Zᵀ * Z = 1 → (∀ c, ∑ i, Z i c = 0) →
+      Matrix.trace ((cols V (shiftIdx 1 hd))ᵀ * Mat.toM M' * cols V (shiftIdx 1 hd))
+        ≤ Matrix.trace (Zᵀ * Mat.toM M' * Z) :=
+  skip_one_end_to_end hd _ V lam hsys 0
+    (by rw [hlle_const_null nb sqrtO thr U hgs M' hM]; rfl) hsimple
+
+end EndToEnd
 
 
 end TapkeeVerif.C08
